@@ -638,3 +638,7 @@ def _c05_fields(prop, c, out):
         if not ok:
             f.append(Finding(prop, 'batch-response-roundtrip', 'batch response changed by the round trip', c, out))
     return f
+
+
+def relevant(prop, c):
+    return c['op'] in (C06_OPS if prop == 'C06' else C05_OPS if prop == 'C05' else ())
